@@ -1,6 +1,7 @@
 #!/bin/bash
 # every thorough check in sequence with an outer time-out per check (seconds, default 5400)
 cd "$(dirname "$0")/.."
+mkdir -p work
 lim=${1:-5400}
 shift
 props=${@:-$(seq -w 1 20 | sed 's/^/C/')}
